@@ -65,7 +65,8 @@ class Run:
 
     # -- violations --------------------------------------------------------
     def write_replay(self, text):
-        d = os.path.join(ROOT, "replays", self.pid)
+        d = os.path.join(ROOT, "replays", self.pid) if REPO == "/repo" else os.path.join(
+            ROOT, "replays", "_" + os.path.basename(REPO.rstrip("/")), self.pid)
         os.makedirs(d, exist_ok=True)
         h = hashlib.sha1(text.encode()).hexdigest()[:12]
         p = os.path.join(d, f"{h}.py")
